@@ -1,6 +1,6 @@
 (** C11 — float_prep on one number, bond canonicalisation, single-field edits: proofs about Model/Hash.v. *)
 From Coq Require Import ZArith QArith Qabs List String Ascii Bool Lia Lqa Permutation.
-Require Import QV.Common.Outcome QV.Common.HFRound QV.Common.HFSort QV.Common.HFHash QV.Gen.HashConsts QV.Model.Hash QV.Proofs.Hash.
+Require Import QV.Common.Outcome QV.Common.HFRound QV.Common.HFBin64 QV.Common.HFSort QV.Common.HFHash QV.Gen.HashConsts QV.Model.Hash QV.Proofs.Hash.
 Import ListNotations.
 Open Scope Z_scope.
 
@@ -270,3 +270,37 @@ Proof.
   exists amb1, amb2. split; [vm_compute; reflexivity|]. split; [discriminate|]. split; [vm_compute; reflexivity|].
   vm_compute. discriminate.
 Qed.
+
+(** ---- numpy.around at the binary64 level ---- *)
+Lemma rint_scaled n x : rint (x * inject_Z (pow10 n)) = round_n n x.
+Proof.
+  unfold rint, round_n. destruct x as [a b]. unfold Qmult, inject_Z. simpl Qnum. simpl Qden.
+  change (pow10 0) with 1. rewrite Z.mul_1_r, Pos.mul_1_r. reflexivity.
+Qed.
+
+(** for every rounding [fl] of the product that is monotone and exact on half-integers up to B (IEEE-754
+    round-to-nearest: B = 2^52), numpy's rint(fl(x * 10^n)) is the exact half-even rounding of x to n decimals unless
+    fl(x * 10^n) is a half-integer *)
+Theorem np_around_exact (fl : Q -> Q) (B : Z) :
+  (forall a b, (a <= b)%Q -> (fl a <= fl b)%Q) ->
+  (forall j : Z, Z.abs j <= B -> (fl (inject_Z j + (1 # 2)) == inject_Z j + (1 # 2))%Q) ->
+  forall n x, (Qabs (x * inject_Z (pow10 n)) <= inject_Z (B - 2)%Z)%Q -> ~ is_half (fl (x * inject_Z (pow10 n))%Q) ->
+  rint (fl (x * inject_Z (pow10 n))%Q) = round_n n x.
+Proof. intros M H n x Hs NH. rewrite (rint_fl_exact fl B M H _ Hs NH). apply rint_scaled. Qed.
+
+(** ... in particular when the product is farther from every tie than the rounding error u·|s| *)
+Theorem np_around_exact_far (fl : Q -> Q) (B : Z) (u : Q) :
+  (forall a b, (a <= b)%Q -> (fl a <= fl b)%Q) ->
+  (forall j : Z, Z.abs j <= B -> (fl (inject_Z j + (1 # 2)) == inject_Z j + (1 # 2))%Q) ->
+  (forall s, (Qabs (fl s - s) <= u * Qabs s)%Q) ->
+  forall n x, (Qabs (x * inject_Z (pow10 n)) <= inject_Z (B - 2)%Z)%Q ->
+  (forall j : Z, (u * Qabs (x * inject_Z (pow10 n)) < Qabs (x * inject_Z (pow10 n) - (inject_Z j + (1 # 2))))%Q) ->
+  rint (fl (x * inject_Z (pow10 n))%Q) = round_n n x.
+Proof. intros M H E n x Hs Far. rewrite (rint_fl_exact_far fl B M H u E _ Hs Far). apply rint_scaled. Qed.
+
+(** the executable binary64 variant of float_prep agrees with the exact one whenever the two roundings agree *)
+Theorem prep_arr64_agrees n x : 0 <= n -> around64 n x = round_n n x -> prep_arr64 n (FQ x) = prep_arr n (FQ x).
+Proof. intros Hn E. rewrite prep_arr_round by exact Hn. unfold prep_arr64. rewrite E. reflexivity. Qed.
+
+(** a double just below the tie 0.5e-8 whose product with 1e8 rounds to the tie itself: numpy rounds it to 0 (tie to
+    even), exact rounding of the value gives 0 as well; the double just above 1.5e-8 ... see the Example in Props *)
